@@ -29,24 +29,7 @@ func scenariosFor(prop string) []scn {
 			out = append(out, scn{p, q, t})
 		}
 	}
-	switch prop {
-	case "SMOKE":
-		both(flowParams{Sources: 1, Records: 2, Batch: 1, Dests: 2, AckMenu: okNack, Stop: "stopwait"}, 1, 1)
-	case "PROC":
-		both(flowParams{Sources: 1, Records: 3, Batch: 1, Dests: 1, AckMenu: onlyOK, Procs: []procParam{{ID: "pp", Workers: 2, Gate: true}}}, 2, 3)
-		both(flowParams{Sources: 1, Records: 3, Batch: 1, Dests: 2, AckMenu: onlyOK, Procs: []procParam{{ID: "pp", Workers: 1, Kinds: []string{"p", "f", "p"}}}}, 1, 3)
-	case "C03":
-		both(flowParams{Sources: 1, Records: 3, Batch: 1, Dests: 2, AckMenu: okNack, Stop: "stopwait", Bundle: 2}, 1, 3)
-		both(flowParams{Sources: 2, Records: 2, Batch: 1, Dests: 1, AckMenu: onlyOK, Stop: "stopwait"}, 1, 2)
-		both(flowParams{Sources: 1, Records: 3, Batch: 1, Dests: 1, AckMenu: okNack, Stop: "", Faults: true, Bundle: 2}, 1, 2)
-		both(flowParams{Sources: 1, Records: 3, Batch: 2, Dests: 2, AckMenu: onlyOK, Stop: "force"}, 1, 2)
-		both(flowParams{Sources: 1, Records: 3, Batch: 1, Dests: 1, AckMenu: onlyOK, Procs: []procParam{{ID: "pp", Kinds: []string{"p", "f", "p"}}}}, 1, 2)
-	case "C02":
-		both(flowParams{Sources: 1, Records: 3, Batch: 1, Dests: 1, AckMenu: onlyOK, Stop: "stopwait", Faults: true, Bundle: 2}, 2, 3)
-		both(flowParams{Sources: 2, Records: 2, Batch: 1, Dests: 1, AckMenu: onlyOK, Stop: "stopwait", Faults: true}, 1, 2)
-		both(flowParams{Sources: 1, Records: 3, Batch: 1, Dests: 2, AckMenu: okNack, Stop: "stopwait", Bundle: 2}, 2, 3)
-		both(flowParams{Sources: 1, Records: 4, Batch: 2, Dests: 1, AckMenu: onlyOK, Stop: "force", Faults: true, Bundle: 3}, 1, 2)
-	case "C01", "C04", "C05":
+	data := func() {
 		both(flowParams{Sources: 1, Records: 2, Batch: 1, Dests: 2, AckMenu: okNack, Stop: "stopwait"}, 2, 3)
 		both(flowParams{Sources: 1, Records: 3, Batch: 1, Dests: 2, AckMenu: onlyOK, Stop: "stopwait"}, 2, 4)
 		both(flowParams{Sources: 1, Records: 2, Batch: 1, Dests: 3, AckMenu: onlyOK, Stop: ""}, 2, 4)
@@ -55,6 +38,50 @@ func scenariosFor(prop string) []scn {
 		both(flowParams{Sources: 1, Records: 2, Batch: 1, Dests: 1, AckMenu: okNack, DLQMenu: okNack, Stop: "stopwait"}, 2, 4)
 		both(flowParams{Sources: 1, Records: 2, Batch: 1, Dests: 2, AckMenu: okNack, Stop: "force"}, 1, 3)
 		both(flowParams{Sources: 1, Records: 2, Batch: 1, Dests: 2, AckMenu: []string{"ok", "err"}, ReadMenu: []string{"ok", "err"}, Stop: ""}, 1, 2)
+		// fan-out with a failing DLQ: a sibling branch votes for later positions after the release of an earlier one failed
+		both(flowParams{Sources: 1, Records: 3, Batch: 1, Dests: 2, AckMenu: okNack, DLQMenu: okNack, Stop: ""}, 2, 3)
+		both(flowParams{Sources: 1, Records: 5, Batch: 5, Dests: 2, AckMenu: []string{"ok", "n:00100", "n:01000"}, DLQMenu: okNack, Stop: ""}, 2, 3)
+		// a per-destination processor rejects a record in the middle of a batch: that branch writes and votes in pieces
+		both(flowParams{Sources: 1, Records: 5, Batch: 5, Dests: 2, AckMenu: onlyOK, DLQMenu: okNack, Procs: []procParam{{ID: "dp", Parent: "d1", Kinds: []string{"p", "p", "e", "p", "p"}}}}, 2, 3)
+		// a DLQ that rejects a record in the middle of one write (v2 writes dead-lettered records in batches)
+		both(flowParams{Sources: 1, Records: 3, Batch: 3, Dests: 1, AckMenu: []string{"nack", "ok", "n:011", "n:110"}, DLQMenu: []string{"ok", "n:010", "n:01", "n:10", "nack"}, Stop: ""}, 2, 3)
+		// a destination that is still opening (or fails to open) while records already flow to its siblings
+		both(flowParams{Sources: 1, Records: 1, Batch: 1, Dests: 2, AckMenu: onlyOK, GateDestOpen: true, Stop: ""}, 3, 4)
+		both(flowParams{Sources: 1, Records: 2, Batch: 1, Dests: 2, AckMenu: onlyOK, GateDestOpen: true, Stop: ""}, 2, 3)
+		// parallel processor workers
+		both(flowParams{Sources: 1, Records: 3, Batch: 1, Dests: 1, AckMenu: onlyOK, Procs: []procParam{{ID: "pp", Workers: 2, Gate: true}}}, 2, 3)
+		both(flowParams{Sources: 1, Records: 3, Batch: 1, Dests: 2, AckMenu: onlyOK, Procs: []procParam{{ID: "pp", Workers: 3, Gate: true, Kinds: []string{"p", "f", "p"}}}}, 1, 3)
+		// store faults, bundle-count flushes, several sources sharing the persister
+		both(flowParams{Sources: 1, Records: 3, Batch: 1, Dests: 1, AckMenu: onlyOK, Stop: "stopwait", Faults: true, Bundle: 2}, 2, 3)
+		both(flowParams{Sources: 2, Records: 2, Batch: 1, Dests: 1, AckMenu: onlyOK, Stop: "stopwait", Faults: true}, 1, 2)
+		both(flowParams{Sources: 1, Records: 3, Batch: 1, Dests: 2, AckMenu: okNack, Stop: "stopwait", Bundle: 2}, 2, 3)
+		both(flowParams{Sources: 1, Records: 4, Batch: 2, Dests: 1, AckMenu: onlyOK, Stop: "force", Faults: true, Bundle: 3}, 1, 2)
+		both(flowParams{Sources: 1, Records: 3, Batch: 1, Dests: 1, AckMenu: onlyOK, Procs: []procParam{{ID: "pp", Kinds: []string{"p", "f", "p"}}}}, 1, 2)
+	}
+	switch prop {
+	case "SMOKE":
+		both(flowParams{Sources: 1, Records: 2, Batch: 1, Dests: 2, AckMenu: okNack, Stop: "stopwait"}, 1, 1)
+	case "PROC":
+		both(flowParams{Sources: 1, Records: 3, Batch: 1, Dests: 1, AckMenu: onlyOK, Procs: []procParam{{ID: "pp", Workers: 2, Gate: true}}}, 2, 3)
+		both(flowParams{Sources: 1, Records: 3, Batch: 1, Dests: 2, AckMenu: onlyOK, Procs: []procParam{{ID: "pp", Workers: 1, Kinds: []string{"p", "f", "p"}}}}, 1, 3)
+	case "C01", "C02", "C03", "C04", "C05", "C07":
+		data()
+	case "C12":
+		for _, blocked := range [][]string{nil, {"d1"}, {"dlq"}, {"d0", "d1"}} {
+			both(flowParams{Sources: 1, Records: 2, Batch: 1, Dests: 2, AckMenu: okNack, Stop: "force", Blocked: blocked}, 2, 3)
+		}
+		both(flowParams{Sources: 1, Records: 3, Batch: 1, Dests: 1, AckMenu: onlyOK, Stop: "force", Restart: true}, 2, 3)
+		both(flowParams{Sources: 2, Records: 2, Batch: 2, Dests: 1, AckMenu: onlyOK, Stop: "force", Restart: true}, 1, 2)
+		both(flowParams{Sources: 1, Records: 3, Batch: 1, Dests: 1, AckMenu: onlyOK, Stop: "force", Restart: true, Procs: []procParam{{ID: "pp", Gate: true}}}, 2, 3)
+		both(flowParams{Sources: 1, Records: 2, Batch: 1, Dests: 2, AckMenu: onlyOK, GateDestOpen: true, Stop: "force"}, 2, 3)
+	case "C06":
+		both(flowParams{Sources: 1, Records: 3, Batch: 1, Dests: 1, AckMenu: onlyOK, Stop: "stopwait"}, 2, 4)
+		both(flowParams{Sources: 1, Records: 2, Batch: 1, Dests: 2, AckMenu: onlyOK, Stop: "stopwait"}, 2, 3)
+		both(flowParams{Sources: 2, Records: 2, Batch: 1, Dests: 1, AckMenu: onlyOK, Stop: "stopwait"}, 1, 2)
+		both(flowParams{Sources: 1, Records: 3, Batch: 2, Dests: 1, AckMenu: onlyOK, Stop: "stop+wait"}, 2, 3)
+		both(flowParams{Sources: 1, Records: 3, Batch: 1, Dests: 1, AckMenu: []string{"ok", "defer"}, Stop: "stopwait"}, 2, 4)
+		both(flowParams{Sources: 1, Records: 3, Batch: 1, Dests: 1, AckMenu: onlyOK, Stop: "stopwait", Procs: []procParam{{ID: "pp", Workers: 1, Gate: true, Kinds: []string{"p", "f", "p"}}}}, 2, 3)
+		both(flowParams{Sources: 1, Records: 3, Batch: 1, Dests: 1, AckMenu: onlyOK, Stop: "stopwait", Bundle: 2}, 2, 3)
 	}
 	return out
 }
